@@ -26,13 +26,30 @@ SKELETONS = [
     R + "variable_impl.go:type=derivedVariable", R + "counter_impl.go:type=counter", R + "eviction_state.go:type=EvictionStateSlotType",
     R + "sorted_set_impl.go:type=sortedSetElement", R + "set_impl.go:type=derivedSet",
     R + "variable_impl.go:derivedVariable.Unsubscribe", R + "variable_impl.go:variable.DeriveValueFrom",
+    # every write path of the reactive Set notifies its subscribers inside the same write mutex (sixth round: Compute moved the
+    # notification behind the Unlock; Add/AddAll/Delete/DeleteAll go through Apply, Replace has its own copy of the loop)
+    R + "set_impl.go:set.Add", R + "set_impl.go:set.AddAll", R + "set_impl.go:set.Delete", R + "set_impl.go:set.DeleteAll",
+    R + "set_impl.go:set.Replace", R + "set_impl.go:set.replace",
 ]
 EXTRA = ["LockExecution", "UnlockExecution", "MarkUnsubscribed", "Invoke", "Trigger", "OnUpdate", "Compute", "Set", "Get",
          "Add", "Delete", "unsubscribeFromWeightUpdates", "updatePosition", "Apply", "Subtract", "ForEachKey", "DeleteAndReturn"]
 
 
+def regen_facts(ctx):
+    """lean/Hive/Gen/C14_Facts.lean: the OnUpdate subscriptions of the constructors (receiver + triggerWithInitialZeroValue
+    argument, source order) and the guard of OnUpdate's initial invocation (harness/c14/facts, go/ast), rewritten from the
+    working tree on every run; the DerivedVariable protocol theorem is instantiated with these flags (C14_derived_var_code)."""
+    out = os.path.join(checklib.LEAN, "Hive", "Gen", "C14_Facts.lean")
+    tmp = os.path.join(ctx.scratch, "C14_Facts.lean")
+    rc, log = checklib.sh(["go", "run", "./c14/facts", tmp, "Hive.Gen.C14Facts", ctx.repo], cwd=checklib.HARNESS, timeout=600)
+    if rc != 0 or not os.path.exists(tmp):
+        return [{"kind": "facts-extractor", "detail": checklib.tail(log, 20)}]
+    checklib.write_gen(ctx, out, open(tmp).read())
+    return []
+
+
 def regen(ctx):
-    return checklib.regen_skeletons(ctx, SKELETONS, extra_methods=EXTRA)
+    return checklib.regen_skeletons(ctx, SKELETONS, extra_methods=EXTRA) + regen_facts(ctx)
 
 
 SPEC = {
@@ -43,11 +60,13 @@ SPEC = {
     "harness": "c14",
     "harness_timeout": {"quick": 900, "thorough": 6000},
     "theorems": [
-        "C14_derived_var", "C14_derived_var_steady", "C14_inherit", "C14_derived_var_unsubscribe", "C14_derived_var_frozen",
+        "C14_derived_var", "C14_derived_var_code", "C14_derived_var_needs_last_flag", "C14_facts_subscriptions", "C14_facts_onupdate_guard", "C14_derived_var_steady", "C14_inherit", "C14_derived_var_unsubscribe", "C14_derived_var_frozen",
         "C14_derived_set", "C14_derived_set_counts", "C14_subtract", "C14_counter",
         "C14_derived_set_concurrent", "C14_subtract_concurrent", "C14_skeleton_readableSet_SubtractReactive", "C14_counter_concurrent", "C14_sorted_set_concurrent",
         "C14_sorted_set", "C14_sorted_set_spec", "C14_sorted_set_members", "C14_sorted_set_absent_weight",
         "C14_eviction", "C14_eviction_unique", "C14_eviction_pre", "C14_eviction_concurrent", "C14_eviction_concurrent_safety", "C14_skeleton_ShrinkingMap_GetOrCreate",
+        "C14_eviction_refines", "C14_eviction_locked", "C14_eviction_test_outside_lock_witness",
+        "C14_skeleton_set_Add", "C14_skeleton_set_AddAll", "C14_skeleton_set_Delete", "C14_skeleton_set_DeleteAll", "C14_skeleton_set_Replace", "C14_skeleton_set_replace",
         "C14_eviction_fire", "C14_eviction_old_negative_witness", "C14_eviction_old_fractional_witness", "C14_eviction_old_loop_witness", "C14_eviction_old_loop_below_top",
         "C14_waitgroup_sequential", "C14_waitgroup_counter", "C14_waitgroup_only_if", "C14_waitgroup",
         "C14_deadlock_free", "C14_scripts_ranked", "C14_ranked_deadlock_free",
